@@ -339,7 +339,7 @@ impl<'a, W: Write> ERun<'a, W> {
 }
 
 #[derive(Clone, Copy)]
-pub struct EnvFamily { pub max_batch: u64, pub small_step: bool, pub toggles: bool, pub rounds: usize, pub asym: bool, pub distinct_batch: bool }
+pub struct EnvFamily { pub max_batch: u64, pub small_step: bool, pub toggles: bool, pub rounds: usize, pub asym: bool, pub distinct_batch: bool, pub extreme: bool }
 
 /// A random environment script: rounds of submissions followed by a step.
 pub fn env_script<W: Write>(w: &mut W, st: &mut EStats, id: u64, t: &mut dyn Target, rng: &mut CountRng, g: &mut Sm,
@@ -357,12 +357,15 @@ pub fn env_script<W: Write>(w: &mut W, st: &mut EStats, id: u64, t: &mut dyn Tar
             let tick = ticks[a];
             let price = |g: &mut Sm, bid: bool| -> u32 {
                 let off = g.below(5) as u32;
+                // extreme mode, tick dividing 2^32-1: some prices reflected about the middle of the u32 range
+                if fam.extreme && u32::MAX % tick == 0 && g.chance(1, 4) { return u32::MAX - (centre[a] + off) * tick; }
                 let k = if fam.asym { if bid { centre[a] - 1 - off } else { centre[a] + 2 + 2 * off } } else if g.chance(1, 3) { centre[a] + off - 2 } else if bid { centre[a] - off } else { centre[a] + off };
                 k * tick
             };
             let op = if fam.distinct_batch || roll < 55 || n == 0 {
                 let bid = g.chance(1, 2);
-                EOp::Place { a, bid, vol: 1 + g.below(if fam.asym { 9 } else { 5 }) as u32, trader: g.below(6) as u32, price: Some(price(g, bid)) }
+                let vol = if fam.extreme && g.chance(1, 8) { *g.pick(&[(1u32 << 31) - 1, 1u32 << 31, 3_000_000_000, u32::MAX - 3]) } else { 1 + g.below(if fam.asym { 9 } else { 5 }) as u32 };
+                EOp::Place { a, bid, vol, trader: g.below(6) as u32, price: Some(price(g, bid)) }
             } else if roll < 65 {
                 EOp::Place { a, bid: g.chance(1, 2), vol: 1 + g.below(6) as u32, trader: 7, price: None }
             } else if roll < 80 {
